@@ -204,13 +204,15 @@ def record_mw(seed, wd, nsteps, cut_mode):
             os.makedirs(os.path.join(d, "view"), exist_ok=True)
             ds.append(vlib.Drv(cwd=d, timeout=30))
         for i, d in enumerate(ds):
-            d.cmd(op="new", natoms=2, prefix="o", restartFreq=MW_R, trajFreq=0)
+            d.cmd(op="new", natoms=2, prefix="o", restartFreq=MW_R, trajFreq=0, keepRemoved=True)
             r = d.cmd(op="config", text=mw_config(i + 1))
             if r.get("rc") != 0:
                 raise vlib.MachineryError("C14 metadynamics config rejected: %s" % r.get("errtext"))
         pos = {1: [], 2: []}
         stepped = {1: 0, 2: 0}
         repeat = {1: False, 2: False}
+        window = {1: False, 2: False}     # the walker's latest action wrote a snapshot (and removed its old hills file)
+        prev_state = {}
         for k in range(nsteps):
             w = rng.choice([1, 2])
             v = 3 - w
@@ -219,13 +221,15 @@ def record_mw(seed, wd, nsteps, cut_mode):
                 d = ds[w - 1]
                 st = d.cmd(op="save")["state"]
                 d.cmd(op="destroy")
-                d.cmd(op="new", natoms=2, prefix="o", restartFreq=MW_R, trajFreq=0)
+                d.cmd(op="new", natoms=2, prefix="o", restartFreq=MW_R, trajFreq=0, keepRemoved=True)
                 r = d.cmd(op="config", text=mw_config(w), finish=False)
                 r2 = d.cmd(op="load", state=st)
                 r3 = d.cmd(op="setupout")
                 if r.get("rc") != 0 or r2.get("rc") != 0 or r3.get("rc") != 0:
                     raise vlib.MachineryError("C14 restart of a metadynamics walker failed: %s %s %s" % (r, r2, r3))
                 events.append({"e": "Restart", "w": w})
+                window[w] = True
+                prev_state[w] = open(os.path.join(wd, "w%d" % w, "o.colvars.m.w%d.state" % w)).read()
                 stepped[w] = 0
                 repeat[w] = True    # the last step is repeated: the engine presents the same position again
                 continue
@@ -236,6 +240,11 @@ def record_mw(seed, wd, nsteps, cut_mode):
             hl_src = os.path.join(pd, "o.colvars.m.w%d.hills" % v)
             shutil.copy(st_src, os.path.join(view, "w%d.state" % v))
             full = open(hl_src).read() if os.path.exists(hl_src) else ""
+            # the reader may run INSIDE the peer's snapshot (after the rename of the new state file, before the removal of
+            # the old hills file): it is then shown the new snapshot with (a prefix of) the hills file that was removed
+            stale = window[v] and os.path.exists(hl_src + ".removed") and rng.random() < 0.6
+            if stale:
+                full = open(hl_src + ".removed").read()
             cut = len(full)
             if cut_mode != "none" and full and rng.random() < 0.5:
                 if cut_mode == "record":
@@ -264,11 +273,15 @@ def record_mw(seed, wd, nsteps, cut_mode):
             if r.get("op") != "step":
                 events.append({"e": "Died", "w": w})
                 break
+            own_state = os.path.join(rd, "o.colvars.m.w%d.state" % w)
+            cur = open(own_state).read() if os.path.exists(own_state) else ""
+            window[w] = (cur != prev_state.get(w, cur)) if w in prev_state else False
+            prev_state[w] = cur
             lg = d.cmd(op="log")["text"]
             recv = [int(t) for t in re.findall(r'received a hill from replica "w%d" at step (\d+)' % v, lg)]
             resync = ('reading the state of replica "w%d"' % v) in lg
             E = r["E"] * 65536.0
-            events.append({"e": "Step", "w": w, "t": r["it"], "x": x, "view": {"n": len(recs), "recs": recs, "partial": partial, "sstep": sstep},
+            events.append({"e": "Step", "w": w, "t": r["it"], "x": x, "view": {"n": len(recs), "recs": recs, "partial": partial, "sstep": sstep, "stale": bool(stale)},
                            "recv": recv, "resync": resync, "E": int(round(E)) if abs(E - round(E)) < 1e-6 else "offlattice %r" % E,
                            "pos": [pos[1] + [0], pos[2] + [0]], "err": r.get("rc", 0), "errtext": (r.get("errtext") or "")[:160]})
     finally:
